@@ -17,6 +17,7 @@ import (
 func init() {
 	vRegister("vC36_sameNode", vC36_sameNode)
 	vRegister("vC36_twoLeaders", vC36_twoLeaders)
+	vRegister("vC36_waiterCancelled", vC36_waiterCancelled)
 }
 
 // ---- fake cluster registry shared by the nodes (only the operations the spawn path uses)
@@ -47,6 +48,7 @@ func (c *vC36Cluster) PutActor(ctx context.Context, actor *internalpb.Actor) err
 // ---- ghost: which node runs an instance; how many instances were created per node
 var vC36_running [2]bool
 var vC36_created [2]int
+var vC36_live [2]int // instances created and not rolled back
 var vC36_node map[*actorSystem]int
 
 // substituted for (*actorSystem).configPID: creating and starting the actor instance
@@ -56,6 +58,8 @@ func vC36_configPID(x *actorSystem, ctx context.Context, name string, actor Acto
 		id = 1
 	}
 	vC36_created[id]++
+	vC36_live[id]++
+	vAssert(vC36_live[id] <= 1, "one node never runs two instances of the singleton at the same time")
 	vC36_running[id] = true
 	return &PID{}, nil
 }
@@ -68,6 +72,7 @@ func vC36_completeSpawn(x *actorSystem, ctx context.Context, parent, pid *PID) (
 			id = 1
 		}
 		vC36_running[id] = false
+		vC36_live[id]--
 		return nil, err
 	}
 	return pid, nil
@@ -107,6 +112,7 @@ func vC36_sameNode() {
 	vC36_sysB = nil
 	vC36_running = [2]bool{}
 	vC36_created = [2]int{}
+	vC36_live = [2]int{}
 	var p1, p2 *PID
 	var e1, e2 error
 	vGo("c1", func() { p1, e1 = vC36_spawn(vC36_sysA) })
@@ -136,12 +142,62 @@ func vC36_twoLeaders() {
 	vC36_sysB = vC36_newSystem(reg)
 	vC36_running = [2]bool{}
 	vC36_created = [2]int{}
+	vC36_live = [2]int{}
 	vGo("nodeA", func() { _, _ = vC36_spawn(vC36_sysA) })
 	vGo("nodeB", func() { _, _ = vC36_spawn(vC36_sysB) })
 	vRun()
 	if vAllDone() {
 		vCover("all-done")
 		vAssert(!(vC36_running[0] && vC36_running[1]), "at most one instance of the singleton runs cluster-wide")
+	}
+	vCover("end")
+}
+
+// a cancellable context written in the harness (the executor's own context model never cancels)
+type vC36Ctx struct {
+	context.Context
+	done      chan struct{}
+	cancelled bool
+}
+
+func (c *vC36Ctx) Done() <-chan struct{} { return c.done }
+func (c *vC36Ctx) Err() error {
+	if c.cancelled {
+		return context.Canceled
+	}
+	return nil
+}
+
+// three callers on the leader; the context of the second one is cancelled at an arbitrary moment (a waiter that gives up
+// must not let a later caller start a second spawn while the first is still in flight)
+func vC36_waiterCancelled() {
+	reg := &vC36Registry{actors: map[string]bool{}}
+	vC36_sysA = vC36_newSystem(reg)
+	vC36_sysB = nil
+	vC36_running = [2]bool{}
+	vC36_created = [2]int{}
+	vC36_live = [2]int{}
+	ctx2 := &vC36Ctx{Context: context.Background(), done: make(chan struct{})}
+	cancel := func() { ctx2.cancelled = true; close(ctx2.done) }
+	spawn := func(ctx context.Context) (*PID, error) {
+		return vC36_sysA.spawnSingletonOnLocal(ctx, "single", vC36Actor{}, nil, time.Second, time.Millisecond, 1, &supervisor.Supervisor{})
+	}
+	var p1, p3 *PID
+	var e1, e2, e3 error
+	vGo("c1", func() { p1, e1 = spawn(context.Background()) })
+	vGo("c2", func() { _, e2 = spawn(ctx2) })
+	vGo("c3", func() { p3, e3 = spawn(context.Background()) })
+	vGo("cancel", func() { cancel() })
+	vRun()
+	if vAllDone() {
+		vCover("all-done")
+		if e2 != nil {
+			vCover("waiter-gave-up")
+		}
+		if e1 == nil && e3 == nil {
+			vAssert(p1 == p3, "concurrent callers on one node receive the same instance")
+			vCover("both-ok")
+		}
 	}
 	vCover("end")
 }
